@@ -462,6 +462,21 @@ func init() {
 		if err := c03StageSpecVal(c); err != nil {
 			return err
 		}
+		var docs [][]byte
+		var names []string
+		n := c.N(1500, 40000)
+		for i := 0; i < n; i++ {
+			r := c.Rng.Fork()
+			d := c03GenDoc(r, r.Chance(50))
+			docs = append(docs, d)
+			names = append(names, h.Q(d))
+		}
+		cn, cd := c03CorpusFiles(c.Repo)
+		docs = append(docs, cd...)
+		names = append(names, cn...)
+		if err := c03StageLoop(c, docs, names); err != nil {
+			return err
+		}
 		return nil
 	})
 }
